@@ -1,6 +1,7 @@
 package main
 
 import (
+	"go/ast"
 	"path/filepath"
 )
 
@@ -35,5 +36,53 @@ func init() {
 		e.f("def batchResultsField : String := %s", leanStr(c.str("ResultsField")))
 		e.f("def batchStatusesField : String := %s", leanStr(c.str("StatusesField")))
 		e.f("def batchErrorsField : String := %s", leanStr(c.str("ErrorsField")))
+		// what UnmarshalWithKeyLocator does with a member that is none of the three fields: the
+		// `default:` branch of its `switch field` either returns restlicodec.NoSuchFieldErr (an
+		// error: nothing consumes it) or skips the value
+		e.f("def batchUnknownFieldIsError : Bool := %v", unknownFieldIsError(c, "BatchResponse.UnmarshalWithKeyLocator"))
 	})
+}
+
+// unknownFieldIsError inspects the first `switch` with a `default:` clause inside fn and reports
+// whether that clause returns the NoSuchFieldErr sentinel (true) or the result of a Skip() call
+// (false). Any other shape is a broken tie.
+func unknownFieldIsError(p *pkg, fn string) bool {
+	fd := p.funcDecl(fn)
+	if fd == nil {
+		fatalf("%s: function %s not found", p.dir, fn)
+	}
+	var verdict *bool
+	ast.Inspect(fd.Body, func(n ast.Node) bool {
+		sw, ok := n.(*ast.SwitchStmt)
+		if !ok || verdict != nil {
+			return verdict == nil
+		}
+		for _, c := range sw.Body.List {
+			cc := c.(*ast.CaseClause)
+			if cc.List != nil || len(cc.Body) != 1 {
+				continue
+			}
+			ret, ok := cc.Body[0].(*ast.ReturnStmt)
+			if !ok || len(ret.Results) != 1 {
+				continue
+			}
+			switch x := ret.Results[0].(type) {
+			case *ast.SelectorExpr:
+				if x.Sel.Name == "NoSuchFieldErr" {
+					t := true
+					verdict = &t
+				}
+			case *ast.CallExpr:
+				if sel, ok := x.Fun.(*ast.SelectorExpr); ok && sel.Sel.Name == "Skip" {
+					f := false
+					verdict = &f
+				}
+			}
+		}
+		return verdict == nil
+	})
+	if verdict == nil {
+		fatalf("%s: %s: cannot find the default branch (NoSuchFieldErr / Skip) of its field switch", p.dir, fn)
+	}
+	return *verdict
 }
